@@ -13,13 +13,13 @@ P = {
    text="Every returned reply is matched byte-for-byte (ID aside) against the reply the adversary produced for that call's own unique question/token; reorder/delay/duplicate/stray-ID/late-reply policies, colliding caller IDs, wire-ID wrap-around with held queries, pool sanitizer and race detector watch the same executions. Sampled schedules/inputs: 'held on K executions', not a proof.",
    note="Trusts the harness connection/servers to deliver exactly what the adversary injected, the independent wire parser, and Go's race detector; kernel-level reordering and >65536-query ID reuse are out of scope (property scope)."),
  "C02": dict(level="exploration", tech="runtime monitoring: event-ordered loss oracle (reply consumed by the reader => call must return exactly that reply) with windows forced by a synchronous fake connection and verif hook points; race detector",
-   text="The arrival windows the statement names (before the send returns, between send and wait, while waiting; with EOF / read error right after the reply) are constructed deterministically and repeated; a consumed reply followed by an error, timeout or later-transmission reply is the violation.",
+   text="The arrival windows the statement names (before the send returns, between send and wait, while waiting; with EOF / read error right after the reply) are constructed deterministically and repeated; a consumed reply followed by an error, timeout or later-transmission reply is the violation. Staggered phase: idle/dial timeouts of 100-300 ms with several queries outstanding and answers later than the idle timeout but well inside the reply-wait timeout and the callers' deadlines.",
    note="'Received' = taken from the fake connection by the client's reader goroutine. Only arrivals >=200 ms before the deadline are judged."),
  "C03": dict(level="exploration", tech="runtime monitoring: differential oracle on EntryHandler / real sockets with independent wire parser over generated queries x generated plugin compositions",
    text="Wire-level generated queries (valid and malformed) through generated compositions of the real built-in plugins; the reply bytes are parsed independently and compared with the query and with the recorded plugin-chain outcome (ID, raw question, QR/RA, rcode class, UDP size bound, TC on shrink, exactly one reply).",
    note="Plugin outcome recorded by a wrapper around the entry executable; independent parser lib/wire trusted."),
  "C04": dict(level="exploration", tech="runtime monitoring: unique-marker collision detection through the real cache plugin (store pass, lookup pass, both orders)",
-   text="Each query of a family stores a unique marker; a second pass records which marker every hit carries; a foreign marker is a collision witness. Exhaustive over all 65536 types (and classes in thorough), the 8 flag combinations and name families.",
+   text="Each query of a family stores a unique marker; a second pass records which marker every hit carries; a foreign marker is a collision witness. Exhaustive over all 65536 types (and classes in thorough), the 8 flag combinations and name families. Chain and multi-cache phases: the cache inside real sequences with redirect / dual_selector / hosts before, behind and between up to three caches; served question = asked question and the answer was issued for exactly that question.",
    note="Cache sized so that eviction does not hide entries (hit ratio checked, else inconclusive)."),
  "C05": dict(level="exploration", tech="runtime monitoring: bracketed-time TTL oracle with entries of chosen age injected through /load_dump, expiry read back through /dump, gated lazy-refresh bursts under the race detector",
    text="TTL ageing, floor, expiry boundary, admission rules per rcode/TC/zero-TTL, negative lifetimes and single-flight lazy refresh are observed on the real plugin for thousands of injected entries and concurrent bursts.",
@@ -31,10 +31,10 @@ P = {
    text="Every single fault x point x ender combination is enumerated on fake connections; each call must return within a generous bound after its enabling event, Close must fail later calls without dial/write, and no transport goroutine or open connection may remain.",
    note="Liveness restated as bounded progress (bounds >= 10x nominal); an execution that would return after the bound is misjudged."),
  "C08": dict(level="fault_enumeration", tech="runtime monitoring: connection-kill scripts with per-connection attempt accounting from the fake network's write log",
-   text="Server kill scripts (close after reply, after idling, reset on next write, close with k in flight, k consecutive reused failures) enumerated up to a length; a call may fail only for the four reasons the statement lists and no query is written on more than 4 connections.",
+   text="Server kill scripts (close after reply, after idling, reset on next write, close with k in flight, k consecutive reused failures) enumerated up to a length; a call may fail only for the four reasons the statement lists and no query is written on more than 4 connections. Reply-then-close phase: the last answered query's Write returns only after the client consumed the reply / saw the close; an answered query must neither fail nor be transmitted again.",
    note="Attempts counted by connection from the harness log; UDP resends on one socket are one attempt."),
  "C09": dict(level="exploration", tech="runtime monitoring: barrier-phase concurrency bound, conservation invariant read under the code's own locks (VerifSnapshot hook) at quiescent points, capacity probes after random histories; race detector",
-   text="Upper bound measured in phases where no call can have returned; reserved/queued counters must be zero at quiescence and never negative; after arbitrary histories a live connection must admit exactly its limit before a new dial; early reservations must survive a successful dial.",
+   text="Upper bound measured in phases where no call can have returned; reserved/queued counters must be zero at quiescence and never negative; after arbitrary histories a live connection must admit exactly its limit before a new dial; early reservations must survive a successful dial. Admission ledger: single-driver histories over every way capacity is taken and given back (reserve, refused, withdraw, completed, failed, cancelled) with the admission decision judged after every step.",
    note="Needs the verif-only snapshot shim; histories are sampled."),
  "C10": dict(level="exploration", tech="runtime monitoring: byte-wise pristine-copy comparison after adversarial in-place mutation of stored and served messages; race detector (cache vs mutator races are violations)",
    text="Every field reachable from a served or stored message is mutated in place; later hits must still equal the pristine packed answer (TTL ageing and ID aside); a concurrent phase lets the race detector find shared state.",
@@ -43,7 +43,7 @@ P = {
    text="Many short concurrent histories with colliding shards, expiries around now, flushes, sweeps and Range; porcupine decides per key whether observed values are explainable; capacity sampled; races in the anchored packages are violations.",
    note="Porcupine timeouts are inconclusive; per-key flush semantics."),
  "C12": dict(level="exploration", tech="runtime monitoring: differential oracle against a naive linear reference matcher over generated rule sets and derived names",
-   text="Rule sets over a tiny label alphabet (overlap, nesting, non-boundary suffixes, duplicates) and names derived from them; Match result and value precedence compared with a reference written from the statement.",
+   text="Rule sets over a tiny label alphabet (overlap, nesting, non-boundary suffixes, duplicates) and names derived from them; Match result and value precedence compared with a reference written from the statement. Concurrent-lookup phase: 8 barrier-released goroutines per shared matcher instance on 11 load routes, every concurrent answer checked against the reference.",
    note="Where the statement leaves ties open any allowed candidate is accepted."),
  "C13": dict(level="exploration", tech="runtime monitoring: differential oracle (linear scan over original prefixes) + structural invariant of the sorted list read through a verif hook",
    text="Random prefix multisets (all lengths, nesting, adjacency, duplicates, mapped forms, shuffled orders) probed at boundary addresses; Contains compared with an independent bit compare; sorted/disjoint/masked invariant asserted after Sort.",
@@ -61,13 +61,13 @@ P = {
    text="For each UDP reply flag word the harness knows which listener saw the query and which reply was returned; TC set must cause the same query over TCP and return the TCP reply; TC clear must not open TCP.",
    note="TCP failure outcome judged leniently (statement is silent)."),
  "C18": dict(level="exploration", tech="runtime monitoring: syscall tracing (strace connect/sendmsg) + SOCKS5/loopback/TLS-SNI observers over the address grammar",
-   text="Every generated address string is either rejected at creation or every observed socket destination / SNI equals what the user wrote (defaults 53/853/443, dial_addr override).",
+   text="Every generated address string is either rejected at creation or every observed socket destination / SNI equals what the user wrote (defaults 53/853/443, dial_addr override). History phase: bootstrap refreshes forced through the bootstrap.tryupdate hook; new connections must settle on the newest resolved address, SNI unchanged.",
    note="Expected destination derived from the structured case, not by re-parsing the string."),
  "C19": dict(level="fault_enumeration", tech="runtime monitoring: dump/reload differential with independent decoder, every truncation point of the dump stream, damaged/hostile inputs with heap watchdog",
-   text="Reloaded caches must serve the same answers/TTLs/expiries; every prefix of a dump must report an error and add only entries of the intact dump; hostile inputs must not panic, hang or allocate without bound.",
+   text="Reloaded caches must serve the same answers/TTLs/expiries; every prefix of a dump must report an error and add only entries of the intact dump; hostile inputs must not panic, hang or allocate without bound. Overlapping dumps (API handler, real listener, periodic file dump, Close) on one cache must each reload to the live entries; the dump file written by overlapping file dumps is judged as a restart would read it.",
    note="Thorough enumerates all prefixes of several dumps."),
  "C20": dict(level="exploration", tech="runtime monitoring: trace rules over scripted primary/secondary executables with the completion-signal interleaving forced at verif hook points; race detector",
-   text="Outcome x timing x standby x hook-pause x cancellation cells repeated; R1-R6 trace rules decide each execution; the standby race is forced deterministically by pausing the primary after it signalled done.",
+   text="Outcome x timing x standby x hook-pause x cancellation cells repeated; R1-R6 trace rules decide each execution; the standby race is forced deterministically by pausing the primary after it signalled done. Every failing branch draws its error kind (plain, context-flavoured, net timeout, sentinel, joined/wrapped) and is judged by the same rules.",
    note="R1 uses the sound 'timer cannot fire early' bound; no upper-bound timing verdicts."),
 }
 
